@@ -184,7 +184,21 @@ func c08Leaf(file *parquet.File, name string) int {
 // c08RowToken: the id of the row if every column agrees with what was written
 // for that id, otherwise an alien token naming the disagreeing column.
 func c08RowToken(file *parquet.File, row parquet.Row) int {
-	idc, sc, lc := c08Leaf(file, "id"), c08Leaf(file, "s"), c08Leaf(file, "l")
+	return c08RowTokenOf(file.Schema(), row)
+}
+
+// c08RowTokenOf: column indexes are those of the schema the rows come with (a merged row group orders its
+// columns by name, not like the file).
+func c08RowTokenOf(schema *parquet.Schema, row parquet.Row) int {
+	leaf := func(name string) int {
+		for i, p := range schema.Columns() {
+			if p[0] == name {
+				return i
+			}
+		}
+		return -1
+	}
+	idc, sc, lc := leaf("id"), leaf("s"), leaf("l")
 	id := alien
 	var s []int
 	var l []int
@@ -305,8 +319,9 @@ func (p *c08Values) read(n int) ([]int, error) {
 func (p *c08Values) close() { p.r.Close() }
 
 type c08Rows struct {
-	file *parquet.File
-	r    interface {
+	schema *parquet.Schema // schema of the rows when it is not the file's
+	file   *parquet.File
+	r      interface {
 		parquet.RowReader
 		SeekToRow(int64) error
 	}
@@ -319,7 +334,11 @@ func (p *c08Rows) read(n int) ([]int, error) {
 	m, err := p.r.ReadRows(rows)
 	got := []int{}
 	for _, row := range rows[:m] {
-		got = append(got, c08RowToken(p.file, row))
+		if p.schema != nil {
+			got = append(got, c08RowTokenOf(p.schema, row))
+		} else {
+			got = append(got, c08RowToken(p.file, row))
+		}
 	}
 	return got, err
 }
@@ -351,6 +370,7 @@ var c08Layers = []string{
 	"values:id", "values:s", "values:l",
 	"rows", "rgreader", "reader", "generic",
 	"apages:s", "apages:l", "arows", "areader",
+	"multi", "merged", "mergedsorted", "buffer",
 }
 
 func c08Open(layer string, sc *c08Scenario, variant int) (c08Reader, *c08File, string, error) {
@@ -362,7 +382,7 @@ func c08Open(layer string, sc *c08Scenario, variant int) (c08Reader, *c08File, s
 	if async {
 		kind = kind[1:]
 	}
-	if kind == "reader" || kind == "generic" {
+	if kind == "reader" || kind == "generic" || kind == "multi" || kind == "merged" || kind == "mergedsorted" {
 		nrg = 2
 	}
 	bf, err := c08Get(sc.Cfg.PageRows, nrg, ver, compressed)
@@ -397,6 +417,29 @@ func c08Open(layer string, sc *c08Scenario, variant int) (c08Reader, *c08File, s
 		rd = &c08Rows{file: file, r: r, closer: r}
 	case "generic":
 		rd = &c08Generic{r: parquet.NewGenericReader[c08Row](file)}
+	case "multi": // the row groups of the file as one logical row group
+		rows := parquet.MultiRowGroup(file.RowGroups()...).Rows()
+		rd = &c08Rows{file: file, r: rows, closer: rows}
+	case "merged", "mergedsorted": // ids increase across row groups: a sorted merge keeps the file order
+		opts := []parquet.RowGroupOption{}
+		if kind == "mergedsorted" {
+			opts = append(opts, parquet.SortingRowGroupConfig(parquet.SortingColumns(parquet.Ascending("id"))))
+		}
+		m, err := parquet.MergeRowGroups(file.RowGroups(), opts...)
+		if err != nil {
+			return nil, nil, "", err
+		}
+		rows := m.Rows()
+		rd = &c08Rows{file: file, r: rows, closer: rows, schema: m.Schema()}
+	case "buffer": // the same rows in an in-memory buffer
+		b := parquet.NewBuffer(file.Schema())
+		src := file.RowGroups()[0].Rows()
+		if _, err := parquet.CopyRows(b, src); err != nil {
+			return nil, nil, "", err
+		}
+		src.Close()
+		rows := b.Rows()
+		rd = &c08Rows{file: file, r: rows, closer: rows}
 	default:
 		return nil, nil, "", fmt.Errorf("unknown layer %q", layer)
 	}
